@@ -280,14 +280,21 @@ _C08_LIFT = {"engine": "lift", "name": "C08_index", "shim": "C08_shim.cpp", "dri
 _C08_LIFT["thorough"] = _C08_LIFT["quick"]
 PROPERTIES["C08"] = {
     "level": "other",
-    "level_text": "LIFT-C unit: bounded model checking (CBMC) of the lifted mask / iterator / range-check code with all sample indices, list contents and mask bytes symbolic",
+    "level_text": "LIFT-C unit: bounded model checking (CBMC) of the lifted mask / iterator / range-check code with all sample indices, list contents and mask bytes symbolic. SRE unit C08_views: symbolic execution of the real datasource -> dataset -> generator stack with one distinct symbol per float64 cell: select/flatten/targets must return exactly the stored symbols (handle identity) under the documented encodings, drop/shuffle/undo included; because the views forward cells unchanged these obligations are decided structurally (no arithmetic query is needed), and the categorical / uint8 parts and the 2^8 class-count boundary configurations are concrete enumerations",
     "level_note": LIFT_NOTE + "; dataset_t object fabricated field-by-field in the shim (check() only reads the sample and feature counts); nano::critical0<...> lowered to an exception flag",
     "technique": LIFT_TECH,
-    "explanation": "C08: index-space clauses (bit masks, iterator -> stored sample mapping, rejection of out-of-range sample/feature indices).",
+    "explanation": "C08: index-space clauses (bit masks, iterator -> stored sample mapping, rejection of out-of-range sample/feature indices) by CBMC; view clauses (select / flatten / targets / drop / shuffle) by symbolic execution with distinct symbols per cell.",
     "assumptions": ["N <= 16 samples, lists of <= 4 indices (repetitions, any order), masks <= 3 bytes"],
     "bounds": {"samples": "1..16 (masks up to 24 bits, optional() up to 20 samples)", "list length": "<= 4", "unwind": "3..22 with unwinding assertions"},
     "outside": ["class counts > 3, 16 threads, schemas beyond the enumerated ones", "storage types other than float64 for symbolic cells"],
-    "units": [_C08_LIFT],
+    "units": [_C08_LIFT,
+        {"engine": "sre", "harness": "C08_views", "sources": ["C08_views.cpp"],
+         "quick": ["f=rsmr;n=3", "f=rSsr;n=3;miss=4;df=1", "f=rrSr;n=4;miss=1;df=2", "f=smur;n=3;cls=256", "f=sur;n=3;cls=256;df=1", "f=sur;n=3;cls=255", "f=sur;n=3;cls=257", "f=rsmr;n=3;order=0;miss=0"],
+         "thorough": ["f=%s;n=%d;miss=%d;df=%d;order=%d" % (f, n, mi, df, o) for f in ("rsmr", "rSsr", "rrSr", "msrSr") for (n, mi) in ((3, 1), (4, 4), (5, 0)) for df in (0, 1) for o in (0, 1)] +
+                     ["f=%s;n=3;cls=%d;df=%d" % (f, c, df) for f in ("smur", "sur", "usr") for c in (2, 255, 256, 257) for df in (0, 1)],
+         "encoded": ["nano::dataset_t::{flatten, select, targets, drop, undrop, shuffle, unshuffle, shuffled, columns, column2feature, feature}", "nano::elemwise_generator_t<identity>::{flatten, select_*}",
+                     "nano::datasource_t::{resize, set, visit}", "nano::feature_storage_t::set", "nano::generator_t::{shuffle, shuffled, should_drop, flatten_dropped}"]},
+    ],
 }
 
 PROPERTIES["C17"] = {
